@@ -1,6 +1,6 @@
 #!/usr/bin/env python3
 """C07 — stream protocol negotiation.  See DESIGN.md section 6 (C07)."""
-import os, sys
+import json, os, sys
 sys.path.insert(0, os.path.join(os.path.dirname(os.path.abspath(__file__)), "..", "tools"))
 from vlib import *
 
@@ -13,6 +13,10 @@ OVERLAY = {
     PKG + "/zz_c07_blank_verif_test.go": "harness/overlay/basichost/c07_blank_verif_test.go",
 }
 NAMES = ["/c07/a", "/c07/a/1.0.0", "/c07/a/1.1.0", "/c07/a/2.0.0", "/c07/ab", "/c07/b", "/c07/b/1.0.0", "/c07"]
+
+
+FOPS = ["Write,Read", "Read(under way),Write", "SetDeadline,Read(under way),Write", "SetDeadline,Write,Read",
+        "CloseWrite,Read", "Write,CloseWrite,Read", "CloseRead,Write"]
 
 
 def harness(ctx, casefile, tier, seed):
@@ -62,7 +66,7 @@ def parse(t):
     """-> (header dict, [op dict]) ; raises on malformed"""
     U = t[3]
     hd = {"hosts": {0: "mocknet", 1: "tcp+noise+yamux", 2: "tcp+noise+yamux via circuit-v2 relay", 3: "mocknet, BlankHost listener",
-                    4: "tcp+noise+yamux, negotiation timeout 300ms", 9: "BlankHost probe (tcp, real rcmgr)"}.get(t[1], t[1]), "rcmgr": bool(t[2] & 1), "limited_conn": bool(t[2] & 2), "U": U,
+                    4: "tcp+noise+yamux, negotiation timeout 300ms", 5: "tcp+noise+yamux, real rcmgr, BlankHost listener", 9: "BlankHost probe (tcp, real rcmgr)"}.get(t[1], t[1]), "rcmgr": bool(t[2] & 1), "limited_conn": bool(t[2] & 2), "U": U,
           "limD": t[4:4 + U], "limL": t[4 + U:4 + 2 * U]}
     i = 4 + 2 * U
     ops = []
@@ -106,12 +110,18 @@ def parse(t):
             kn = lst()
             sc = t[i:i + 2 * U]
             i += 2 * U
-            ops.append({"op": "Open", "reqs": reqs, "allow_limited": modes, "results": res, "unattributed": un, "know": kn,
+            ops.append({"op": "Open", "reqs": reqs, "allow_limited": [m & 1 for m in modes],
+                        "late_exchange": [(m >> 1) & 1 for m in modes],
+                        "first_ops": [FOPS[(m >> 2) % 7] for m in modes], "results": res, "unattributed": un, "know": kn,
                         "outD": sc[:U], "inL": sc[U:]})
         elif c == 6:
             ops.append({"op": "Close", "slot": t[i + 1], "how": t[i + 2], "outD": t[i + 3:i + 3 + U],
                         "inL": t[i + 3 + U:i + 3 + 2 * U]})
             i += 3 + 2 * U
+        elif c == 8:
+            ops.append({"op": "SetProtocolAgain", "slot": t[i + 1], "end": "dialer" if t[i + 2] == 0 else "listener", "q": t[i + 3],
+                        "refused": t[i + 4], "dialer_reports": t[i + 5], "listener_reports": t[i + 6]})
+            i += 7
         elif c == 7:
             d, wt = t[i + 1], t[i + 2]
             i += 3
@@ -175,14 +185,29 @@ def key(tag, toks, d):
         if o["op"] == "Open":
             obs = [[r[k] for k in ("res", "dp", "use", "lp", "ninv", "hlp")] for r in o["results"]]
             return "C07:open:rcmgr=%d:limited=%d:table=%s:know=%s:reqs=%s:allow=%s:obs=%s:un=%d" % (
-                hd["rcmgr"], hd["limited_conn"], list(tab.items()), know, o["reqs"], o["allow_limited"], obs, len(o["unattributed"]))
+                hd["rcmgr"], hd["limited_conn"], list(tab.items()), know, o["reqs"],
+                [[a, f] for a, f in zip(o["allow_limited"], o["first_ops"])], obs, len(o["unattributed"]))
+        if o["op"] == "SetProtocolAgain":
+            return "C07:setprotocol-again:rcmgr=%d:end=%s:refused=%s:labels_kept=%s" % (
+                hd["rcmgr"], o["end"], o["refused"], o["dialer_reports"] == o["listener_reports"])
         return "C07:%s:%s" % (o["op"], d)
     except Exception:
         return "C07:%s:%s" % (tag, " ".join(map(str, toks[:120])))
 
 
 def what(tag, toks, d):
-    return "negotiation trace violates the property at op %s (diag %s)" % (d[1] if len(d) > 1 else "?", d)
+    op = ""
+    try:
+        _, ops = parse(toks)
+        o = ops[d[1]]
+        if o["op"] == "Open":
+            op = ": NewStream%s first ops %s -> %s" % (o["reqs"], o["first_ops"],
+                                                      [[r[k] for k in ("res", "dp", "use", "lp")] for r in o["results"]])
+        else:
+            op = ": " + json.dumps(o)[:160]
+    except Exception:
+        pass
+    return "negotiation trace violates the property at op %s (diag %s)%s" % (d[1] if len(d) > 1 else "?", d, op)
 
 
 if __name__ == "__main__":
